@@ -1,1 +1,10 @@
 pub mod c01;
+pub mod c02;
+pub mod c05;
+pub mod c13;
+
+/// entry for internal child-process sub-commands
+pub fn child_main(args: &[String]) -> i32 {
+    eprintln!("unknown sub-command {:?}", args.first());
+    2
+}
